@@ -69,7 +69,7 @@ EXTRA_TEXT = {
  "C10": " Added: PairedEndRenamer (rn, r1./r2. fields, id checks) and tokenize_braces are modelled; paired_rename_spec, paired_rename_placeholders, tokenize_sound; stepwise oracle "
         "(the run with all options equals a chain of one run per documented stage). Translator observes the order of -u/-U cuts on probe reads (generated_cuts_in_given_order, generated_cuts_are_model).",
  "C11": " Added: translator gen_filterorder (a probe read to which two filters apply, every pair, both option orders: category and redirect file) with generated_first_applicable_filter_wins; two-stage reference for 'filters see the fully modified read'.",
- "C14": " Added: the definitions are also checked through the command line (--poly-a, --trim-n, --max-n, --max-ee, --max-aer on mixed-case reads, every --action, 1 and 2 cores).",
+ "C14": " Added: translator gen_c14tables (--poly-a/--trim-n/--max-n on probe reads, alone and next to unrelated options) with generated_c14_tables. Added: the definitions are also checked through the command line (--poly-a, --trim-n, --max-n, --max-ee, --max-aer on mixed-case reads, every --action, 1 and 2 cores).",
  "C16": " Added: oracle for paired --revcomp (total score over both reads, as given vs swapped).",
  "C19": " Added: translator gen_outfmt observes the format written for a menu of file names x cores x input format; generated_output_formats proves the table equal to the model's rule (formatOfName = outputFormat).",
  "C20": " Added: R2 adapter statistics of paired runs with worker processes against a single-end tally of the R2 reads.",
